@@ -7,7 +7,9 @@
 //               3 MeasurementModel, 4 AdditiveMeasurementModel), fail (1: the evaluation fails);
 //               aug2 (optional: rows of a second noise block appended by a second augmentWithNoise), Qaug2;
 //               mats params, means (d x comps), covs (dc x dc*comps), Qaug, A (p x d'), b (p x 1),
-//               N (pc x pc additive noise covariance).
+//               N (pc x pc additive noise covariance); optional G (p x d'), g (p x 1): the map is
+//               x -> A x + b + g o (G x) o (G x); optional noise_means ((aug+aug2) x comps): written on the
+//               noise rows of the means after the augmentation.
 #define VF_MAIN
 #include "common.hpp"
 #include <BayesFilters/AdditiveMeasurementModel.h>
@@ -25,9 +27,17 @@ static VectorDescription desc(long lin, long circ, long noise, bool quat) {
     return VectorDescription(lin, circ, noise, quat ? VectorDescription::CircularType::Quaternion : VectorDescription::CircularType::Euler);
 }
 
+// x -> A x + b, or (quad) x -> A x + b + g o (G x) o (G x) with component-wise products
 struct AffMap {
-    MatrixXd A, b;
-    MatrixXd operator()(const Ref<const MatrixXd>& X) const { return A * X + b.replicate(1, X.cols()); }
+    MatrixXd A, b, G, g; bool quad = false;
+    MatrixXd operator()(const Ref<const MatrixXd>& X) const {
+        MatrixXd Y = A * X + b.replicate(1, X.cols());
+        if (quad) {
+            MatrixXd U = G * X;
+            Y += (g.replicate(1, X.cols()).array() * (U.array() * U.array())).matrix();
+        }
+        return Y;
+    }
 };
 
 struct HStateModel : public StateModel {
@@ -91,6 +101,8 @@ int main() {
         const long q2 = c.has_int("aug2") ? c.integer("aug2") : 0;
         if (q > 0) { vf::Entry e("GaussianMixture::augmentWithNoise"); mix.augmentWithNoise(c.mat("Qaug")); }
         if (q2 > 0) { vf::Entry e("GaussianMixture::augmentWithNoise(second)"); mix.augmentWithNoise(c.mat("Qaug2")); }
+        // non-zero means on the noise rows (written through the public accessor)
+        if (c.has_mat("noise_means") && q + q2 > 0) mix.mean().bottomRows(q + q2) = c.mat("noise_means");
         GaussianMixture mix_copy(mix);
         VectorDescription din = desc(lin, circ, q + q2, quat), dout = desc(olin, ocirc, 0, oquat);
         vf::out_begin(c.id);
@@ -101,6 +113,7 @@ int main() {
         { vf::Entry e("sigma_point::sigma_point"); MatrixXd sp = sigma_point::sigma_point(mix, w->c); vf::out_mat("sp", sp); }
         AffMap f;
         if (!fail) { f.A = c.mat("A"); f.b = c.mat("b"); }
+        if (!fail && c.has_mat("G")) { f.quad = true; f.G = c.mat("G"); f.g = c.mat("g"); }
         const MatrixXd& N = c.mat("N");
         bool valid = true; GaussianMixture out; MatrixXd cross;
         if (overload == 0) {
